@@ -1,4 +1,5 @@
 import Sop.Lemmas.CommitPhase1
+import Sop.Lemmas.CommitFlip
 /-!
 # C03 — uncommitted and rolled-back writes are never visible to other transactions
 
@@ -9,6 +10,8 @@ harness parks the real writer at the same points and lets a real reader look.
 Proved: at every stop point of phase 1, at the end of phase 1 (the gap in which external two-phase participants
 work) and at every stop point of a following `Rollback`, every node that existed before reads exactly as before —
 for every write set, start state (under the id-freshness premises) and every fault.
+Proved too (`C03_phase2_all_or_nothing`): during phase 2 — stopped before any of its calls, under any fault — a reader
+sees either every node as before or every updated node at its new version; never a mixture.
 Refuted (the full statement is false for the code as it is): the store COUNT is updated in phase 1, and a brand-new
 root (first item of an empty store) is registered in phase 1; both are visible in the gap and vanish on Rollback.
 -/
@@ -52,6 +55,41 @@ theorem C03_nodes_unchanged_through_rollback {s0 : State} {w : WS} {fresh0 : Lis
   cases hr : rollback w values { r1 with stopAt := stop, fault := fault } with
   | error r => rw [hr] at h2; exact h2.1.stable
   | ok p => obtain ⟨a, r⟩ := p; rw [hr] at h2; exact h2.1.stable
+
+/-- **During phase 2 a reader sees all of the commit or none of it.** From the end of a successful phase 1, let
+phase 2 run with any fault and be stopped right before ANY of its calls (or run to its end): the state a reader
+finds is either the old one — every node that existed before exactly as before — or the new one — every node the
+transaction updated at its new blob and version + 1, every node it did not touch as before. Never a mixture. -/
+theorem C03_phase2_all_or_nothing {s0 : State} {w : WS} {fresh0 : List (UUID × UUID)} (pre : Pre s0 w fresh0)
+    (pre2 : Pre2 s0 w fresh0) (tid : Tid) (f1 : Option Fault) (n : Nat) (r1 : Run) (u : Unit)
+    (h1 : phase1 w n { s := s0, tid := tid, fault := f1, fresh := fresh0 } = .ok (u, r1))
+    (stop : Option (Cls × Nat)) (fault : Option Fault) :
+    let seesOld (r : Run) := ∀ lid, (s0.view lid).isSome → r.s.view lid = s0.view lid
+    let seesNew (r : Run) :=
+      (∀ h ∈ r1.reserved, h.inactive ≠ 0 → r.s.view h.lid = some (h.inactive, h.version + 1)) ∧
+      (∀ lid, (s0.view lid).isSome → (∀ h ∈ r1.reserved, h.lid ≠ lid) → (∀ g ∈ r1.removedH, g.lid ≠ lid) →
+        r.s.view lid = s0.view lid)
+    match phase2 w { r1 with stopAt := stop, fault := fault } with
+    | .ok (_, r) => seesNew r
+    | .error r => seesOld r ∨ seesNew r := by
+  intro seesOld seesNew
+  have hj0 : J0 s0 w fresh0 { s := s0, tid := tid, fault := f1, fresh := fresh0 } :=
+    ⟨⟨SInv.init s0 w fresh0 pre, fun _ hp => hp⟩, rfl, rfl⟩
+  have hst := staged_phase1 pre pre2 n _ hj0
+  rw [h1] at hst
+  have hst' : Staged s0 w fresh0 { r1 with stopAt := stop, fault := fault } :=
+    Frame.frame r1 _ hst.1 rfl rfl rfl rfl rfl
+  have h2 := phase2_atomic pre pre2 (hst.1.lists pre2) { r1 with stopAt := stop, fault := fault } ⟨hst', rfl, rfl⟩
+  cases hp : phase2 w { r1 with stopAt := stop, fault := fault } with
+  | ok q =>
+    obtain ⟨u', r⟩ := q
+    rw [hp] at h2
+    exact ⟨fun h hm hz => h2.view_new hm hz, h2.old⟩
+  | error r =>
+    rw [hp] at h2
+    rcases h2 with a | b
+    · exact .inl a.rinv.1.stable
+    · exact .inr ⟨fun h hm hz => b.view_new hm hz, b.old⟩
 
 theorem C03_premises_satisfiable : Pre Witness.s0 Witness.wSplit [(1, 9)] := Witness.pre_wSplit
 
